@@ -19,7 +19,8 @@
 enum { P_F = 0x100, P_SUB = 0x110, P_ZZ = 0x120, P_YY = 0x130, P_T = 0x140, IOV = 0x200, BUF = 0x300, RES = 0x400, STAT = 0x500,
        NAME = 0x800, DIRBUF = 0x1000 };
 
-static int hostPipe[3];   /* read ends of the pipes that stand in for the host's stdout / stderr */
+/* pipes that stand in for the host's stdout / stderr while a guest write to 1 / 2 is executed */
+static int hostPipe[3], hostPipeW[3], saved[3];
 
 static void setup(void) {
     static char* argv[] = {"prog", NULL};
@@ -36,8 +37,8 @@ static void setup(void) {
     for (k = 1; k <= 2; k++) {
         int fds[2];
         if (pipe2(fds, O_NONBLOCK) != 0) _exit(72);
-        dup2(fds[1], k); close(fds[1]);
-        hostPipe[k] = fds[0];
+        hostPipe[k] = fds[0]; hostPipeW[k] = fds[1];
+        saved[k] = fcntl(k, F_DUPFD, 210);
     }
     if (!wasiInit(1, argv, envp) || !wasiFileDescriptorAdd(-1, a, &pre)) { fprintf(hx_out, "HARNESS-ERROR wasiInit\n"); _exit(71); }
     fprintf(hx_out, "INFO preopen=%u path=%s\n", pre, a);
@@ -55,8 +56,11 @@ static U32 use(const char* c, U32 x, int ns, char* det, size_t cap) {
     det[0] = 0;
     memset(hx_mem.data + RES, 0xAA, 16);
     if (!strcmp(c, "fd_write") || !strcmp(c, "fd_pwrite")) {
+        int std = (x == 1 || x == 2);
         iov3();
+        if (std) { fflush(hx_out); dup2(hostPipeW[x], x); }
         e = c[3] == 'w' ? NS(ns, fd_write)(I, x, IOV, 1, RES) : NS(ns, fd_pwrite)(I, x, IOV, 1, 0, RES);
+        if (std) dup2(saved[x], x);
         if (e == 0) {
             int n = snprintf(det, cap, "nw=%u", hx_u32(RES));
             if (x == 1 || x == 2) {
